@@ -508,7 +508,9 @@ class VM:
         elif op == OpCode.SUB:
             b = self.stack.pop()
             a = self.stack.pop()
-            self.stack.append(normalize_number(to_number(a) - to_number(b)))
+            a_num = self._to_number(a)
+            b_num = self._to_number(b)
+            self.stack.append(normalize_number(a_num - b_num))
 
         elif op == OpCode.MUL:
             b = self.stack.pop()
@@ -520,8 +522,8 @@ class VM:
         elif op == OpCode.DIV:
             b = self.stack.pop()
             a = self.stack.pop()
-            b_num = to_number(b)
-            a_num = to_number(a)
+            a_num = self._to_number(a)
+            b_num = self._to_number(b)
             if b_num == 0:
                 # Check sign of zero using copysign
                 b_sign = math.copysign(1, b_num)
@@ -537,8 +539,8 @@ class VM:
         elif op == OpCode.MOD:
             b = self.stack.pop()
             a = self.stack.pop()
-            b_num = to_number(b)
-            a_num = to_number(a)
+            a_num = self._to_number(a)
+            b_num = self._to_number(b)
             if b_num == 0 or math.isnan(b_num) or math.isnan(a_num) or math.isinf(a_num):
                 self.stack.append(float("nan"))
             elif math.isinf(b_num):
@@ -554,11 +556,12 @@ class VM:
         elif op == OpCode.POW:
             b = self.stack.pop()
             a = self.stack.pop()
-            self.stack.append(self._pow(to_number(a), to_number(b)))
+            a_num = self._to_number(a)
+            self.stack.append(self._pow(a_num, self._to_number(b)))
 
         elif op == OpCode.NEG:
             a = self.stack.pop()
-            n = to_number(a)
+            n = self._to_number(a)
             # Ensure -0 produces -0.0 (float)
             if n == 0:
                 self.stack.append(-0.0 if math.copysign(1, n) > 0 else 0.0)
@@ -567,7 +570,7 @@ class VM:
 
         elif op == OpCode.POS:
             a = self.stack.pop()
-            self.stack.append(to_number(a))
+            self.stack.append(self._to_number(a))
 
         # Bitwise
         elif op == OpCode.BAND:
@@ -592,8 +595,9 @@ class VM:
         elif op == OpCode.SHL:
             b = self.stack.pop()
             a = self.stack.pop()
+            left = self._to_int32(a)  # operands are converted left to right
             shift = self._to_uint32(b) & 0x1F
-            result = self._to_int32(a) << shift
+            result = left << shift
             # Convert result back to signed 32-bit
             result = result & 0xFFFFFFFF
             if result >= 0x80000000:
@@ -603,14 +607,16 @@ class VM:
         elif op == OpCode.SHR:
             b = self.stack.pop()
             a = self.stack.pop()
+            left = self._to_int32(a)
             shift = self._to_uint32(b) & 0x1F
-            self.stack.append(self._to_int32(a) >> shift)
+            self.stack.append(left >> shift)
 
         elif op == OpCode.USHR:
             b = self.stack.pop()
             a = self.stack.pop()
+            left = self._to_uint32(a)
             shift = self._to_uint32(b) & 0x1F
-            result = self._to_uint32(a) >> shift
+            result = left >> shift
             self.stack.append(result)
 
         # Comparison
@@ -849,11 +855,11 @@ class VM:
         # Increment/Decrement
         elif op == OpCode.INC:
             a = self.stack.pop()
-            self.stack.append(normalize_number(to_number(a) + 1))
+            self.stack.append(normalize_number(self._to_number(a) + 1))
 
         elif op == OpCode.DEC:
             a = self.stack.pop()
-            self.stack.append(normalize_number(to_number(a) - 1))
+            self.stack.append(normalize_number(self._to_number(a) - 1))
 
         # Closures
         elif op == OpCode.MAKE_CLOSURE:
@@ -1031,7 +1037,7 @@ class VM:
 
     def _to_int32(self, value: JSValue) -> int:
         """Convert to 32-bit signed integer."""
-        n = to_number(value)
+        n = self._to_number(value)
         if math.isnan(n) or math.isinf(n) or n == 0:
             return 0
         n = int(n)
@@ -1042,7 +1048,7 @@ class VM:
 
     def _to_uint32(self, value: JSValue) -> int:
         """Convert to 32-bit unsigned integer."""
-        n = to_number(value)
+        n = self._to_number(value)
         if math.isnan(n) or math.isinf(n) or n == 0:
             return 0
         n = int(n)
@@ -1050,6 +1056,11 @@ class VM:
 
     def _compare(self, a: JSValue, b: JSValue) -> int:
         """Compare two values. Returns -1, 0, or 1."""
+        # Objects are compared through their primitive values (left first)
+        if isinstance(a, JSObject):
+            a = self._to_primitive(a, "number")
+        if isinstance(b, JSObject):
+            b = self._to_primitive(b, "number")
         # Both strings: compare as strings
         if isinstance(a, str) and isinstance(b, str):
             if a < b:
@@ -1114,6 +1125,12 @@ class VM:
             return self._abstract_equals(1 if a else 0, b)
         if isinstance(b, bool):
             return self._abstract_equals(a, 1 if b else 0)
+
+        # Object against string or number: compare its primitive value
+        if isinstance(a, JSObject) and isinstance(b, (str, int, float)):
+            return self._abstract_equals(self._to_primitive(a), b)
+        if isinstance(b, JSObject) and isinstance(a, (str, int, float)):
+            return self._abstract_equals(a, self._to_primitive(b))
 
         return False
 
